@@ -5,7 +5,7 @@
    All quantifiers are unbounded (every json body of any nesting, every prefix, every digest oracle dg). *)
 From Coq Require Import ZArith NArith List String Bool Ascii.
 From KV Require Import Base.Json Base.Dicts Model.Keys Model.Storage Model.Diff Model.Essence Model.OwnWrites.
-From KV Require Import Proofs.C04Diff Proofs.C04Reduce Proofs.C04System Proofs.C04Own Proofs.C04Bridge Proofs.C04Main Proofs.C04Witness.
+From KV Require Import Proofs.C04Diff Proofs.C04Reduce Proofs.C04System Proofs.C04Own Proofs.C04Bridge Proofs.C04Other Proofs.C04Main Proofs.C04Witness.
 Import ListNotations.
 Open Scope string_scope.
 Open Scope list_scope.
@@ -130,19 +130,27 @@ Print Assumptions C04_payload_change_visible.
 
 (* ======================= own writes ======================= *)
 (* Full statement "every framework write leaves the essence unchanged" is FALSE of the faithful model:
-   F41 (the first marker under the diff-base prefix hides annotations that were visible) ... *)
+   F41 (the first marker under the diff-base prefix hides annotations that were visible) *)
 Theorem C04_own_writes_invisible_refuted :
   exists ds ps body e b', essence w_dg ds ps body [] = Ok e /\ own_body_after w_dg ds ps body [OwDiffbase e] = Ok b' /\
     res_jeqb (essence w_dg ds ps b' []) (Ok e) = false.
 Proof. exact own_writes_invisible_refuted. Qed.
 Print Assumptions C04_own_writes_invisible_refuted.
 
-(* ... and F42 (Multi diff-base storage, ReplicaSet of a Deployment, unmarkable prefix) *)
-Theorem C04_own_writes_multi_drs_refuted :
-  exists e b', essence w_dg w42_ds w41_ps w42_body [] = Ok e /\ own_body_after w_dg w42_ds w41_ps w42_body [OwDiffbase e] = Ok b' /\
-    res_jeqb (essence w_dg w42_ds w41_ps b' []) (Ok e) = false.
-Proof. exact own_writes_multi_drs_refuted. Qed.
-Print Assumptions C04_own_writes_multi_drs_refuted.
+(* F42 (MultiDiffBaseStorage strips `<key>` instead of `<key>-ofDRS` for a ReplicaSet of a Deployment) is masked
+   since kopf commit e6fe434: the prefix is always marked or known, so the own annotation is dropped with it *)
+Example C04_own_writes_multi_drs_ex :
+  match essence w_dg w42_ds w41_ps w42_body [] with
+  | Ok e =>
+      match own_body_after w_dg w42_ds w41_ps w42_body [OwDiffbase e] with
+      | Ok b' => res_jeqb (essence w_dg w42_ds w41_ps b' []) (Ok e)
+                 && match resolve b' ["metadata"; "annotations"; "kopf.dev/last-handled-configuration-ofDRS"] with Some _ => true | None => false end
+      | _ => false
+      end
+  | _ => false
+  end = true.
+Proof. exact own_writes_multi_drs_ex. Qed.
+Print Assumptions C04_own_writes_multi_drs_ex.
 
 (* Partial (annotation storages DAnn P / PAnn P', any prefixes, v1/v2, any body with a metadata mapping,
    ignored_fields = extra_fields = []): the essence is a function of the VISIBLE annotations only ... *)
@@ -298,22 +306,108 @@ Proof. exact own_cycle_invisible_ex. Qed.
 Print Assumptions C04_own_cycle_invisible_ex.
 
 (* ======================= other Kopf operators ======================= *)
-(* Full statement "writes of every other Kopf operator are invisible" is FALSE (F5: prefix kopf.dev) *)
-Theorem C04_other_operator_refuted :
-  exists body ops b', own_body_after w_dg w_other_ds w_other_ps body ops = Ok b' /\
-    res_jeqb (essence w_dg w_ds w_ps b' []) (essence w_dg w_ds w_ps body []) = false.
-Proof. exact other_operator_refuted. Qed.
-Print Assumptions C04_other_operator_refuted.
+(* F5 is fixed (kopf commit e6fe434: _store_marker skips only kopf.zalando.org and its subdomains, which are
+   detected without a marker).  Full statement, for EVERY non-empty slash-free prefix P (kopf.dev included):
+   after the first store of an operator under P, P is detectable on the object ... *)
+Theorem C04_prefix_detectable_after_store : forall dg P pv1 verbose tk hkey record kvs md A p,
+  P <> "" -> C04Own.no_slash P = true ->
+  lookup "metadata" kvs = Some (JObj md) -> lookup "annotations" md = Some (JObj A) ->
+  pstore dg (PAnn P pv1 verbose tk) hkey record (JObj kvs) (JObj []) = Ok p ->
+  exists A', merge (JObj kvs) p = body_with kvs md A' /\ In P (marked_prefixes (keys A')).
+Proof. exact prefix_detectable_after_store. Qed.
+Print Assumptions C04_prefix_detectable_after_store.
 
-(* its root: _store_marker never marks a prefix starting with "kopf." *)
-Theorem C04_kopf_prefix_never_marked : forall prefix body patch,
-  str_prefix_of "kopf." prefix = true -> store_marker prefix body patch = Ok patch.
-Proof. exact kopf_prefix_never_marked. Qed.
-Print Assumptions C04_kopf_prefix_never_marked.
+Theorem C04_prefix_detectable_after_diffbase_store : forall dg P key v1 ign e kvs md A p,
+  P <> "" -> C04Own.no_slash P = true ->
+  lookup "metadata" kvs = Some (JObj md) -> lookup "annotations" md = Some (JObj A) ->
+  dstore dg (DAnn P key v1 ign) (JObj kvs) (JObj []) e = Ok p ->
+  exists A', merge (JObj kvs) p = body_with kvs md A' /\ In P (marked_prefixes (keys A')).
+Proof. exact prefix_detectable_after_diffbase_store. Qed.
+Print Assumptions C04_prefix_detectable_after_diffbase_store.
 
-(* Partial: with the marker q/kopf-managed on the object (every configuration, every body), nothing under
-   q/ reaches the essence; the same for kopf.zalando.org without a marker *)
-Theorem C04_other_operator_partial : forall dg ds ps kvs md anns q j extra e,
+(* ... hence, for EVERY storage configuration ds/ps and extra fields of the observing operator, nothing under P/
+   reaches its essence ... *)
+Theorem C04_other_operator_invisible : forall dg' P pv1 verbose tk hkey record kvs md A p dg ds ps extra e j,
+  P <> "" -> C04Own.no_slash P = true ->
+  lookup "metadata" kvs = Some (JObj md) -> lookup "annotations" md = Some (JObj A) ->
+  pstore dg' (PAnn P pv1 verbose tk) hkey record (JObj kvs) (JObj []) = Ok p ->
+  (forall f, In f extra -> hd_error f <> Some "metadata") ->
+  essence dg ds ps (merge (JObj kvs) p) extra = Ok e ->
+  under_prefix P j = true ->
+  resolve e ["metadata"; "annotations"; j] = None.
+Proof. exact other_operator_absent_after_store. Qed.
+Print Assumptions C04_other_operator_invisible.
+
+Theorem C04_other_operator_invisible_diffbase : forall dg' P key v1 ign e0 kvs md A p dg ds ps extra e j,
+  P <> "" -> C04Own.no_slash P = true ->
+  lookup "metadata" kvs = Some (JObj md) -> lookup "annotations" md = Some (JObj A) ->
+  dstore dg' (DAnn P key v1 ign) (JObj kvs) (JObj []) e0 = Ok p ->
+  (forall f, In f extra -> hd_error f <> Some "metadata") ->
+  essence dg ds ps (merge (JObj kvs) p) extra = Ok e ->
+  under_prefix P j = true ->
+  resolve e ["metadata"; "annotations"; j] = None.
+Proof. exact other_operator_absent_after_diffbase_store. Qed.
+Print Assumptions C04_other_operator_invisible_diffbase.
+
+(* ... and (annotation storages of the observing operator) the essence is UNCHANGED by the other operator's store,
+   at first contact (nothing under P/ on the object yet) and at every later store (P marked by then).  The
+   general guard "nothing under P/ was visible before" is the one F41 violates (annotations left under P/ by
+   users or by a Kopf older than the marker). *)
+Theorem C04_other_operator_first_store_invisible : forall dg Q key v1 Q' pv1 verbose tk kvs md A dg' P pv1' verbose' tk' hkey record p,
+  Q' <> "" -> P <> "" -> C04Own.no_slash P = true ->
+  lookup "metadata" kvs = Some (JObj md) -> lookup "annotations" md = Some (JObj A) ->
+  (forall j, In j (keys A) -> under_prefix P j = false) ->
+  pstore dg' (PAnn P pv1' verbose' tk') hkey record (JObj kvs) (JObj []) = Ok p ->
+  essence dg (DAnn Q key v1 []) (PAnn Q' pv1 verbose tk) (merge (JObj kvs) p) []
+  = essence dg (DAnn Q key v1 []) (PAnn Q' pv1 verbose tk) (JObj kvs) [].
+Proof. exact other_operator_first_store_invisible. Qed.
+Print Assumptions C04_other_operator_first_store_invisible.
+
+Theorem C04_other_operator_later_store_invisible : forall dg Q key v1 Q' pv1 verbose tk kvs md A dg' P pv1' verbose' tk' hkey record p,
+  Q' <> "" -> P <> "" -> C04Own.no_slash P = true ->
+  lookup "metadata" kvs = Some (JObj md) -> lookup "annotations" md = Some (JObj A) ->
+  In P (marked_prefixes (keys A)) ->
+  pstore dg' (PAnn P pv1' verbose' tk') hkey record (JObj kvs) (JObj []) = Ok p ->
+  essence dg (DAnn Q key v1 []) (PAnn Q' pv1 verbose tk) (merge (JObj kvs) p) []
+  = essence dg (DAnn Q key v1 []) (PAnn Q' pv1 verbose tk) (JObj kvs) [].
+Proof. exact other_operator_later_store_invisible. Qed.
+Print Assumptions C04_other_operator_later_store_invisible.
+
+Theorem C04_other_operator_store_invisible_partial : forall dg Q key v1 Q' pv1 verbose tk kvs md A dg' P pv1' verbose' tk' hkey record p,
+  Q' <> "" -> P <> "" -> C04Own.no_slash P = true ->
+  lookup "metadata" kvs = Some (JObj md) -> lookup "annotations" md = Some (JObj A) ->
+  (forall j, In j (keys A) -> under_prefix P j = true ->
+     vis Q' (full_keys dg Q v1 (body_with kvs md A) key) A j = false) ->
+  pstore dg' (PAnn P pv1' verbose' tk') hkey record (JObj kvs) (JObj []) = Ok p ->
+  essence dg (DAnn Q key v1 []) (PAnn Q' pv1 verbose tk) (merge (JObj kvs) p) []
+  = essence dg (DAnn Q key v1 []) (PAnn Q' pv1 verbose tk) (JObj kvs) [].
+Proof. exact other_operator_store_invisible. Qed.
+Print Assumptions C04_other_operator_store_invisible_partial.
+
+Theorem C04_other_operator_diffbase_store_invisible_partial : forall dg Q key v1 Q' pv1 verbose tk kvs md A dg' P key' v1' ign e0 p,
+  Q' <> "" -> P <> "" -> C04Own.no_slash P = true ->
+  lookup "metadata" kvs = Some (JObj md) -> lookup "annotations" md = Some (JObj A) ->
+  (forall j, In j (keys A) -> under_prefix P j = true ->
+     vis Q' (full_keys dg Q v1 (body_with kvs md A) key) A j = false) ->
+  dstore dg' (DAnn P key' v1' ign) (JObj kvs) (JObj []) e0 = Ok p ->
+  essence dg (DAnn Q key v1 []) (PAnn Q' pv1 verbose tk) (merge (JObj kvs) p) []
+  = essence dg (DAnn Q key v1 []) (PAnn Q' pv1 verbose tk) (JObj kvs) [].
+Proof. exact other_operator_diffbase_store_invisible. Qed.
+Print Assumptions C04_other_operator_diffbase_store_invisible_partial.
+
+(* regression example for F5: an operator with prefix kopf.dev gets its marker and is invisible *)
+Example C04_other_operator_kopf_dev_ex :
+  match own_body_after w_dg w_other_ds w_other_ps w_body [OwStore "create_fn" w_record; OwDiffbase (JObj [("spec", JObj [])]); OwTouch (JStr "t")] with
+  | Ok b' => res_jeqb (essence w_dg w_ds w_ps b' []) (essence w_dg w_ds w_ps w_body []) && negb (jeqb b' w_body)
+             && match resolve b' ["metadata"; "annotations"; "kopf.dev/kopf-managed"] with Some (JStr "yes") => true | _ => false end
+  | _ => false
+  end = true.
+Proof. exact other_operator_kopf_dev_ex. Qed.
+Print Assumptions C04_other_operator_kopf_dev_ex.
+
+(* The two detection facts used above, on their own: with the marker q/kopf-managed on the object (every
+   configuration, every body) nothing under q/ reaches the essence; the same for kopf.zalando.org without a marker *)
+Theorem C04_other_operator_marked_absent : forall dg ds ps kvs md anns q j extra e,
   lookup "metadata" kvs = Some (JObj md) -> lookup "annotations" md = Some (JObj anns) ->
   C04System.no_slash q = true -> In (q ++ "/" ++ marker_name)%string (keys anns) ->
   under_prefix q j = true ->
@@ -321,9 +415,9 @@ Theorem C04_other_operator_partial : forall dg ds ps kvs md anns q j extra e,
   essence dg ds ps (JObj kvs) extra = Ok e ->
   resolve e ["metadata"; "annotations"; j] = None.
 Proof. exact other_operator_marked_absent. Qed.
-Print Assumptions C04_other_operator_partial.
+Print Assumptions C04_other_operator_marked_absent.
 
-Theorem C04_other_operator_known_prefix_partial : forall dg ds ps kvs md anns n j extra e,
+Theorem C04_other_operator_known_prefix_absent : forall dg ds ps kvs md anns n j extra e,
   lookup "metadata" kvs = Some (JObj md) -> lookup "annotations" md = Some (JObj anns) ->
   In (known_prefix ++ "/" ++ n)%string (keys anns) ->
   under_prefix known_prefix j = true ->
@@ -331,7 +425,7 @@ Theorem C04_other_operator_known_prefix_partial : forall dg ds ps kvs md anns n 
   essence dg ds ps (JObj kvs) extra = Ok e ->
   resolve e ["metadata"; "annotations"; j] = None.
 Proof. exact other_operator_known_absent. Qed.
-Print Assumptions C04_other_operator_known_prefix_partial.
+Print Assumptions C04_other_operator_known_prefix_absent.
 
 (* and a write under an already marked prefix leaves the essence unchanged (annotation storages) *)
 Theorem C04_other_operator_write_invisible_partial : forall dg P key v1 P' pv1 verbose tk kvs md A q k v,
